@@ -254,6 +254,14 @@ pub fn gen_c05(out: &mut Out, rng: &mut Rng, thorough: bool) {
         }
         monitor_line(out, &format!("stream tcpadu {}", chunks_tok(&chunks)));
     }
+    // … also when earlier bytes are still waiting in the write buffer
+    for _ in 0..(if thorough { 20_000 } else { 1_500 }) {
+        let pre = rng.bytes_in(1, 12);
+        let r = gen_request(rng, None);
+        monitor_line(out, &format!("tcpreq {} {} {} pre={}", hex16(rng.u16()), hex8(rng.u8()), request(&r), hex_raw(&pre)));
+        let r = gen_response(rng, None);
+        monitor_line(out, &format!("tcprsp {} {} R={} pre={}", hex16(rng.u16()), hex8(rng.u8()), response(&r), hex_raw(&pre)));
+    }
     // transmitted frames: protocol id 0, length = PDU length + 1
     for _ in 0..(if thorough { 40_000 } else { 3_000 }) {
         let r = gen_request(rng, None);
@@ -321,7 +329,8 @@ pub fn mon_c05(out: &mut Out, l: &str, r: &str) {
                 out.check(rest_ok, || format!("something was delivered beyond the frames of the stream: {:?}", trunc_v(&got[n..].to_vec())), l);
             }
         }
-        ["tcpreq", tid, u, _] | ["tcprsp", tid, u, _] => {
+        ["tcpreq", tid, u, _] | ["tcprsp", tid, u, _] | ["tcpreq", tid, u, _, _] | ["tcprsp", tid, u, _, _] => {
+            out.check(!r.contains("damaged"), || format!("encoder touched bytes already waiting in the buffer: {}", super::codec::trunc(r)), l);
             if let Some(h) = r.strip_prefix("ok ") {
                 let f = p_bytes(h).unwrap();
                 let ok = f.len() >= 7
@@ -505,6 +514,26 @@ pub fn gen_c04(out: &mut Out, rng: &mut Rng, thorough: bool) {
             }
             send(out, rng, &d);
         }
+    }
+    // a CRC-rejected candidate ending exactly at a read boundary: one stray byte in front makes the
+    // frame's address byte look like a function code; two inserted bytes sit where that
+    // candidate's CRC field would be; the rest of the real frame arrives with the next read
+    for i in 0..(if thorough { 40_000 } else { 4_000 }) {
+        let request = i % 2 == 0;
+        let codec = if request { "rtusrv" } else { "rtucli" };
+        let slave = if request { 1 + rng.u8() % 6 } else { 1 + rng.u8() % 4 };
+        let f = gen_rtu_frame(rng, request, Some(slave));
+        // PDU length the table infers for the candidate [z, slave, f[1], …]
+        let k = if request { 5 } else { 2 + usize::from(f[1]) };
+        if k >= f.len() || k < 1 {
+            continue;
+        }
+        let z = rng.u8();
+        let mut first = vec![z];
+        first.extend(&f[..k]);
+        first.extend([rng.u8(), rng.u8()]);
+        let second = f[k..].to_vec();
+        monitor_line(out, &format!("stream {codec} {}", chunks_tok(&[first, second])));
     }
     // random noise with embedded frames
     for i in 0..(if thorough { 60_000 } else { 3_000 }) {
